@@ -72,6 +72,11 @@ class Prop(common.PropertyCheck):
             for cont in ('array', 'sample'):
                 yield {'g': 'ellipse', 'cont': cont, 'N': 40, 'a': a, 'b': b, 'theta': 0.0, 'center': [500.0, 400.0], 'log': False, 'chform': 'pos',
                        'dtype': 'float', 'degenerate': True, 'seed': 500 + i}
+        # negative semi-axes: the documented form depends on a**2 and b**2 only, so the sign of a semi-axis does not matter
+        for i, (a, b) in enumerate([(-300.0, 150.0), (300.0, -500.0), (-200.0, -200.0), (-120.0, 400.0)]):
+            for cont in ('array', 'sample'):
+                yield {'g': 'ellipse', 'cont': cont, 'N': 40, 'a': a, 'b': b, 'theta': [0.0, 0.7][i % 2], 'center': [500.0, 400.0], 'log': False, 'chform': 'pos',
+                       'dtype': 'float', 'seed': 900 + i}
         # two-column samples gated on (column 1, column 0); samples of more than 2**16 events whose events all lie inside the ellipse
         for i in range(self.budget(8, 60)):
             yield {'g': 'ellipse', 'cont': 'array', 'N': [40, 60][i % 2], 'a': 300.0, 'b': 120.0, 'theta': [0.4, 0.0, -1.1][i % 3], 'center': [520.0, 480.0], 'log': False,
